@@ -81,13 +81,16 @@ impl Check for C11 {
         let unk_pct = *rng.pick(&[0u64, 0, 30, 70]);
         for _ in 0..depth {
             let ids: Vec<u64> = chain.iter().map(|c| c.0).collect();
-            let cands: Vec<_> = spec.elems.iter().filter(|e| e.ty == Ty::Master && spec.allowed(e.id, &ids)).collect();
+            // (not a master that by itself ends one of the trailing unknown-size masters it would be opened in:
+            // possible through placeholders only, and then the chain would not be this chain for a reader)
+            let rs = chain.iter().rposition(|x| !x.1).map(|i| i + 1).unwrap_or(0);
+            let cands: Vec<_> = spec.elems.iter().filter(|e| e.ty == Ty::Master && spec.allowed(e.id, &ids) && !(rs..ids.len()).any(|i| ends_master(&spec, ids[i], e.id))).collect();
             if cands.is_empty() {
                 break;
             }
             let e = *rng.pick(&cands);
-            // unknown size only on masters with a placeholder-free path (see DESIGN C07)
-            let unk = !e.has_global() && rng.below(100) < unk_pct;
+            // (masters whose own path has a placeholder get unknown size half as often)
+            let unk = rng.below(100) < unk_pct && (!e.has_global() || rng.chance(1, 2));
             chain.push((e.id, unk));
         }
         Case { spec, chain, probe: None, pseed: rng.next() }
@@ -97,7 +100,8 @@ impl Check for C11 {
         let ids: Vec<u64> = c.chain.iter().map(|x| x.0).collect();
         // the chain itself must be reachable, otherwise nothing can be said
         for i in 0..ids.len() {
-            if c.spec.ty(ids[i]) != Some(Ty::Master) || !c.spec.allowed(ids[i], &ids[..i]) || (c.chain[i].1 && c.spec.get(ids[i]).map(|e| e.has_global()).unwrap_or(true)) {
+            let rs = c.chain[..i].iter().rposition(|x| !x.1).map(|k| k + 1).unwrap_or(0);
+            if c.spec.ty(ids[i]) != Some(Ty::Master) || !c.spec.allowed(ids[i], &ids[..i]) || (rs..i).any(|k| ends_master(&c.spec, ids[k], ids[i])) {
                 st.inc("out_of_scope");
                 return Ok(ExecOk { nontrivial: false });
             }
@@ -173,6 +177,13 @@ impl Check for C11 {
                 st.inc("reader_skipped_position_not_fixed_by_first_element");
                 continue;
             }
+            // an element with exactly the (placeholder-bearing) declared path of an open unknown-size master of
+            // the trailing run: "sibling, closes it" and "global elements never close it" both apply. Not judged.
+            let run_start = c.chain.iter().rposition(|x| !x.1).map(|i| i + 1).unwrap_or(0);
+            if ed.has_global() && (run_start..ids.len()).any(|i| c.spec.path(ids[i]) == ed.path) {
+                st.inc("reader_skipped_same_global_path_as_open_unknown_master");
+                continue;
+            }
             // stream: chain[0] > chain[1] > ... > probe (a leaf with a small payload, or an empty master)
             let leaf = if ed.ty == Ty::Master { Node::master(*p, vec![]) } else { Node::leaf(*p, gen::gen_leaf_val(&mut pr, ed.ty, &gen::PayOpts { max_len: 6, boundary_pct: 0 })) };
             // sometimes a completed sibling subtree precedes the probe inside the innermost chain master: a
@@ -180,7 +191,8 @@ impl Check for C11 {
             // still open inside it at that moment. It must leave the chain exactly as it was.
             let mut filler: Option<Node> = None;
             if pr.chance(1, 3) {
-                let ms: Vec<_> = c.spec.elems.iter().filter(|e| e.ty == Ty::Master && c.spec.allowed(e.id, &ids)).collect();
+                // (a filler that would itself end a master of the trailing unknown-size run would change the chain)
+                let ms: Vec<_> = c.spec.elems.iter().filter(|e| e.ty == Ty::Master && c.spec.allowed(e.id, &ids) && !(run_start..ids.len()).any(|i| ends_master(&c.spec, ids[i], e.id))).collect();
                 if !ms.is_empty() {
                     let m = *pr.pick(&ms);
                     let mut inner_chain = ids.clone();
@@ -221,7 +233,6 @@ impl Check for C11 {
             let e = enc::encode(std::slice::from_ref(&node));
             // the chain that remains after the closing rule: the outermost master of the trailing
             // unknown-size run that the probe ends goes, with everything inside it
-            let run_start = c.chain.iter().rposition(|x| !x.1).map(|i| i + 1).unwrap_or(0);
             let remaining: Vec<u64> = match (run_start..ids.len()).find(|i| ends_master(&c.spec, ids[*i], *p)) {
                 Some(i) => {
                     st.inc("probe_closes_unknown_size_masters");
@@ -242,6 +253,17 @@ impl Check for C11 {
                 (true, None) => {
                     if !tr.tags().iter().any(|(t, _)| t.id == *p && !t.is_end()) || !matches!(tr.evs.last(), Some(Ev::None)) {
                         fail!("reader-lost-element", "the element was not emitted; {}", ctx());
+                    }
+                    // accepted for the right reason: the masters closed on the way are exactly those the
+                    // closing rule names (the chain the element was judged against is what remained open)
+                    let (want_tags, stop) = crate::refdec::ref_decode(&c.spec, &input);
+                    if stop == crate::refdec::DecStop::Clean {
+                        let got: Vec<crate::val::TagV> = tr.tags().into_iter().map(|(t, _)| t).collect();
+                        if got != want_tags {
+                            let k = got.iter().zip(want_tags.iter()).take_while(|(a, b)| a == b).count();
+                            fail!("reader-closes-other-masters", "item {} is {} where the closing rule gives {}; {}", k, got.get(k).map(|t| t.short()).unwrap_or("<end>".into()), want_tags.get(k).map(|t| t.short()).unwrap_or("<end>".into()), ctx());
+                        }
+                        st.inc("probe_reader_trace_compared");
                     }
                 }
                 (true, Some(e)) => fail!("reader-rejects-allowed-element", "strict read fails with {}; {}", e.short(), ctx()),
